@@ -54,8 +54,27 @@ def body_of(src, name):
     return t[t.index("{", t.index("->")):]
 
 
-def extract():
-    src = read_repo(F_SRC)
+COMMON_INDENT_NESTED = norm("""{
+    let lines = source.lines().skip(1);
+    let mut common_indent: Option<usize> = None;
+    for line in lines {
+        if let Some((first_index, _)) = line.match_indices(is_not_whitespace).next() {
+            if common_indent.is_none_or(|indent| first_index < indent) { common_indent = Some(first_index) }
+        }
+    }
+    common_indent.unwrap_or(0) }""")
+
+COMMON_INDENT_ALL_LINES = norm("""{
+    source.lines().skip(1).map(|line| line.find(is_not_whitespace).unwrap_or(line.len())).min().unwrap_or(0) }""")
+
+CFG = {"prop": "C30", "file": F_SRC, "driver": "schema_driver", "what": "the description",
+       "callers": [norm("parsed_str.map(|unparsed_text|clean_block_string_literal(unparsed_text).intern().into())")],
+       "replay_note": "native replay goes through the public parse_schema on the block string followed by `type Q { a: Int }`",
+       "outside": "the rest of SDL parsing (types, fields, arguments, defaults, directives, extensions, acceptance of exactly the valid documents) needs a reference implementation and is outside the claim"}
+
+
+def extract(cfg=CFG):
+    src = read_repo(cfg["file"])
     b = norm(body_of(src, "clean_block_string_literal"))
     if not b.startswith(BODY_PREFIX):
         raise Inconclusive("encoding not regenerable: clean_block_string_literal is not the recognised statement sequence")
@@ -64,13 +83,15 @@ def extract():
     if not m:
         raise Inconclusive("encoding not regenerable: unrecognised tail of clean_block_string_literal: %s" % rest[:120])
     chain = [(rust_str_literal(a if a is not None else c), rust_str_literal(d)) for a, c, d in re.findall(r"\.replace\((?:\"((?:[^\"\\]|\\.)*)\"|'((?:[^'\\]|\\.)+)'),\"((?:[^\"\\]|\\.)*)\"\)", m.group(1))]
-    for name, want in (("get_common_indent", COMMON_INDENT), ("line_is_whitespace", LINE_WS), ("is_not_whitespace", NOT_WS)):
-        if norm(body_of(src, name)) != want:
+    for name, wants in (("get_common_indent", (COMMON_INDENT, COMMON_INDENT_NESTED, COMMON_INDENT_ALL_LINES)), ("line_is_whitespace", (LINE_WS,)), ("is_not_whitespace", (NOT_WS,))):
+        if norm(body_of(src, name)) not in wants:
             raise Inconclusive("encoding not regenerable: %s changed" % name)
-    need_caller = norm("parsed_str.map(|unparsed_text|clean_block_string_literal(unparsed_text).intern().into())")
-    if need_caller not in norm(src):
-        raise Inconclusive("encoding not regenerable: parse_multiline_description no longer stores clean_block_string_literal(token text)")
-    return {"result_replace_chain": chain}
+    indent_over = "all-lines" if norm(body_of(src, "get_common_indent")) == COMMON_INDENT_ALL_LINES else "lines-with-content"
+    nsrc = norm(src)
+    for c in cfg["callers"]:
+        if c not in nsrc:
+            raise Inconclusive("encoding not regenerable: the caller no longer stores clean_block_string_literal(token text): %s" % c[:80])
+    return {"result_replace_chain": chain, "common_indent_over": indent_over}
 
 
 S = z3.StringVal
@@ -95,7 +116,7 @@ def _replace_all_bounded(term, a, b, k=3):
     return rep_from(term, k)
 
 
-def build(shape, seps, tag, q, unescape_in_model_chain):
+def build(shape, seps, tag, q, unescape_in_model_chain, indent_over="lines-with-content"):
     """shape: per line None (blank) or a tuple of units ('p' plain / 'e' escaped triple quote). Returns (token text term,
     model value term, spec value term, concrete builder info)."""
     L = len(shape)
@@ -124,12 +145,18 @@ def build(shape, seps, tag, q, unescape_in_model_chain):
         inner = piece if inner is None else z3.Concat(inner, S(seps[i - 1]), piece)
     token = z3.Concat(S(TQ), inner, S(TQ))
 
-    def value(contents, chain):
-        nonblank = [i for i in range(1, L) if shape[i] is not None]
+    def value(contents, chain, over="lines-with-content"):
+        nonblank = [i for i in range(1, L) if shape[i] is not None or over == "all-lines"]
+        def indent_of(i):
+            # str::lines() yields no final empty line: an empty last line does not take part (only matters when blank lines count)
+            if over == "all-lines" and i == L - 1 and shape[i] is None:
+                return z3.If(z3.Length(ws[i]) == 0, z3.IntVal(1000), z3.Length(ws[i]))
+            return z3.Length(ws[i])
         if nonblank:
-            ci = z3.Length(ws[nonblank[0]])
+            ci = indent_of(nonblank[0])
             for i in nonblank[1:]:
-                ci = z3.If(z3.Length(ws[i]) < ci, z3.Length(ws[i]), ci)
+                ci = z3.If(indent_of(i) < ci, indent_of(i), ci)
+            ci = z3.If(ci >= 1000, z3.IntVal(0), ci)
         else:
             ci = z3.IntVal(0)
         lines = []
@@ -148,9 +175,9 @@ def build(shape, seps, tag, q, unescape_in_model_chain):
     # the recognised replace chain acts on the joined result; within the alphabet (no quote or backslash outside the escape unit) every
     # occurrence of the escape is an escape unit, so replacing all occurrences equals taking each unit's replaced text
     if unescape_in_model_chain == []:
-        mval = value(content_raw, [])
+        mval = value(content_raw, [], indent_over)
     elif unescape_in_model_chain == [(ETQ, TQ)]:
-        mval = value(content_val, [])
+        mval = value(content_val, [], indent_over)
     else:
         raise Inconclusive("encoding not regenerable: replace chain %r on the result is outside the supported subset" % (unescape_in_model_chain,))
     return token, mval, value(content_val, []), (ws,)
@@ -185,7 +212,8 @@ def zstr(v):
     return re.sub(r"\\u\{([0-9a-fA-F]+)\}", lambda m: chr(int(m.group(1), 16)), v.as_string())
 
 
-def main():
+def main(cfg=CFG):
+    PROP = cfg["prop"]
     t0 = time.time()
     T_ = tier()
     B = {"lines": 3, "units": 2} if T_ == "quick" else {"lines": 4, "units": 2}
@@ -195,7 +223,7 @@ def main():
     X = None
     os.makedirs(os.path.join(REPLAYS, PROP), exist_ok=True)
     try:
-        binary = build_native("schema_driver")
+        binary = build_native(cfg["driver"])
         # ---- stage 0 (not solver-decided; a guard that does not depend on the extractor): probe tokens through the real parser
         PROBES = ['"""aa"""', '"""\n a\n  a#\n \u00e9\n"""', '"""a\n  a"""', '"""\n\n \t\n  a \n\n"""', '"""  a\n  a\n \u00e9"""', '"""a\r\n a\r\n  #"""',
                   '"""\u00e9 #\n\t\u00e9"""', '"""a\\"""a"""', '"""\n  \\"""\n  a\n"""', '""""""', '"""  """', '"""\n  a\n"""', '"""hello\n    world\n      !"""']
@@ -214,7 +242,7 @@ def main():
                 violations.append(("native probe guard: the description %r is read as %r; the specification's BlockStringValue is %r" % (tok, r.get("description"), want), rp))
                 samples.append({"token": tok, "real": r, "spec": want, "stage": "probe guard"})
                 break
-        X = extract()
+        X = extract(cfg)
         chain = X["result_replace_chain"]
         # ---- translator validation: the composed term, pinned to the probe tokens it can express, equals the real parser
         def shape_of_token(tok):
@@ -246,7 +274,7 @@ def main():
                 continue
             shape, seps, pins = so
             q = Query("C30_validate", simple=True)
-            token, mval, sval, _ = build(shape, seps, "v", q, chain)
+            token, mval, sval, _ = build(shape, seps, "v", q, chain, X["common_indent_over"])
             q.add(token == S(tok))
             out = z3.String("out")
             q.add(out == mval)
@@ -271,7 +299,7 @@ def main():
                     if L > 2 and len(set(seps)) > 1:
                         continue        # bound: one kind of line terminator per string once there are three or more lines
                     q = Query("C30_shape", solver_timeout_s=60, simple=True)
-                    token, mval, sval, _ = build(list(shape), list(seps), "s", q, chain)
+                    token, mval, sval, _ = build(list(shape), list(seps), "s", q, chain, X["common_indent_over"])
                     q.add(mval != sval)
                     r = q.check(cross_check=False)
                     n_q += 1
@@ -310,10 +338,10 @@ def main():
         infra.append(str(e))
 
     cov = {
-        "explanation": "One clause of C30 (block-string descriptions): clean_block_string_literal and its helpers are re-read from source and composed into a z3 string term over "
-                       "enumerated block-string shapes with symbolic indentation and content; the specification's BlockStringValue is the oracle; models are replayed through the real parse_schema.",
-        "functions_encoded": ["graphql_schema_parser::description::clean_block_string_literal", "get_common_indent", "line_is_whitespace", "is_not_whitespace", "parse_multiline_description (call)"],
-        "extracted": X, "source_fingerprint": repo_fingerprint([F_SRC]),
+        "explanation": "One clause of " + PROP + " (block-string values): clean_block_string_literal and its helpers are re-read from source and composed into a z3 string term over "
+                       "enumerated block-string shapes with symbolic indentation and content; the specification's BlockStringValue is the oracle; models are replayed through the real parser (public API).",
+        "functions_encoded": [cfg["file"] + "::clean_block_string_literal", "get_common_indent", "line_is_whitespace", "is_not_whitespace", "its callers"],
+        "extracted": X, "source_fingerprint": repo_fingerprint([cfg["file"]]),
         "bounds": dict(B, indentation="0..2 spaces/tabs per line", content="units: a character of {a, \u00e9, #, space} or the escaped triple quote", terminators="LF or CRLF"),
         "queries": queries, "queries_discharged": n_q, "solver_time_s": round(solver_s, 2),
         "translator_validation_inputs_agreeing": n_valid,
@@ -322,9 +350,9 @@ def main():
         "samples": samples[:6] or [{"note": "none"}], "exhaustive": False, "known_findings_reported": known_lines,
     }
     assumptions = [
-        "PARTIAL: only the value of block-string descriptions; the rest of SDL parsing (types, fields, arguments, defaults, directives, extensions, acceptance of exactly the valid documents) needs a reference implementation and is outside the claim",
+        "PARTIAL: only the value of block strings; " + cfg["outside"],
         "a lone carriage return as line terminator (which str::lines does not split on) is outside the bound; so are other characters than the listed alphabet",
-        "native replay goes through the public parse_schema on the block string followed by `type Q { a: Int }`",
+        cfg["replay_note"],
     ]
     write_evidence(PROP, "other", cov, assumptions, time.time() - t0, len(violations))
     finish(PROP, violations, known_lines, infra)
